@@ -346,6 +346,9 @@ func (g *G) Expr(ty m.Ty, d int) *m.Node {
 		if g.Custom {
 			cn = 1
 		}
+		if g.Custom {
+			cn = 2
+		}
 		switch pickW(g.t, "boolop", bw, bw, 1, 2, 2, 1, 1, 1, 1, cn) {
 		case 0:
 			return m.Op(g.alias("and", "&", "&&"), g.kids(m.TBool, d, 2, maxA)...)
@@ -377,6 +380,12 @@ func (g *G) Expr(ty m.Ty, d int) *m.Node {
 		case 8:
 			return m.Op("xor", g.kids(m.TBool, d, 2, maxA)...)
 		default:
+			switch rapid.IntRange(0, 3).Draw(g.t, "custombool") {
+			case 0:
+				return m.Op("andn", g.kids(m.TBool, d, 1, 3)...)
+			case 1:
+				return m.Op("orn", g.kids(m.TBool, d, 1, 3)...)
+			}
 			return m.Op("c_not", g.Expr(m.TBool, d-1))
 		}
 	case m.TStr:
@@ -509,7 +518,7 @@ func operatorLikeNames(t *rapid.T, tree *m.Node, u *Universe) {
 
 func drawStateless(t *rapid.T) []string {
 	var out []string
-	for _, n := range []string{"c_cat", "c_fail", "c_id", "c_not", "c_sum"} { // never c_cnt: it is stateful
+	for _, n := range []string{"andn", "c_cat", "c_fail", "c_id", "c_not", "c_sum", "orn"} { // never c_cnt: it is stateful
 		if rapid.IntRange(0, 3).Draw(t, "sl_"+n) == 0 {
 			out = append(out, n)
 		}
